@@ -648,14 +648,9 @@ func (self *RefExp) EncodeJSON(buf *bytes.Buffer) error {
 			return err
 		}
 		first := true
-		dims := make([]*CallStm, 0, len(self.Forks))
-		for k := range self.Forks {
-			dims = append(dims, k)
-		}
-		sort.Slice(dims, func(i, j int) bool {
-			return dims[i].Id < dims[j].Id
-		})
-		for _, s := range dims {
+		// Calls at different levels of nesting can share an id, so order
+		// by source position as well.
+		for _, s := range sortedCalls(self.Forks) {
 			i := self.Forks[s]
 			if first {
 				first = false
